@@ -3883,6 +3883,8 @@ impl LineBuf {
 		Ok(())
 	}
 	pub fn exec_cmd(&mut self, cmd: ViCmd) -> Result<(),String> {
+		#[cfg(vicut_verif)]
+		crate::verif::trace_cmd_begin(&cmd, &self.buffer, self.cursor.get());
 		let clear_redos = !cmd.is_undo_op() || cmd.verb.as_ref().is_some_and(|v| v.1.is_edit());
 		let is_char_insert = cmd.verb.as_ref().is_some_and(|v| v.1.is_char_insert());
 		let is_line_motion = cmd.is_line_motion();
@@ -3987,6 +3989,8 @@ impl LineBuf {
 				self.cursor.sub(1); // push it off the newline
 		}
 
+		#[cfg(vicut_verif)]
+		crate::verif::trace_cmd_end(&self.buffer, self.cursor.get());
 		Ok(())
 	}
 	pub fn as_str(&self) -> &str {
